@@ -266,6 +266,23 @@ def specReport (calls : List Call) : Nat × List Nat × List Nat :=
   let sv := survivingList P calls
   (P, (sv.filter (!·.2)).map (·.1), (sv.filter (·.2)).map (·.1))
 
+mutual
+  /-- every reported attempt at position `P` anywhere in the tree: (rule, under negation). -/
+  def callAttemptsAt (P : Nat) : Call → List (Nat × Bool)
+    | .node r pos matched neg reportable kids =>
+      (if isAttempt (.node r pos matched neg reportable kids) && pos == P then [(r, neg)] else []) ++ callAttemptsAtList P kids
+  def callAttemptsAtList (P : Nat) : List Call → List (Nat × Bool)
+    | [] => []
+    | c :: cs => callAttemptsAt P c ++ callAttemptsAtList P cs
+end
+
+/-- `(furthest position, all rules that failed there outside negation, all rules that matched there
+under negation)`: what a sound report may draw its expected / unexpected rules from. -/
+def allAttempts (calls : List Call) : Nat × List Nat × List Nat :=
+  let P := furthestList calls
+  let ats := callAttemptsAtList P calls
+  (P, (ats.filter (!·.2)).map (·.1), (ats.filter (·.2)).map (·.1))
+
 def traceMeaning (rules : List Rule) (extras : Bool) (uni : String → Option CharSet) (fuel : Nat)
     (rule : String) (input : Str) : T :=
   callT { rules, input, extras, uni } fuel .nonAtomic .none rule ⟨0, []⟩
